@@ -419,7 +419,7 @@ def run(R):
                 'isa fields': '%d delimiter triples x 2 versions x 14 headers with the component separator inside ISA02/04/06/08/09 x all bodies <= %d (+ the header repeated mid-stream) x {default, buffer 3, one-char reads}' % (len(triples(T)), 3 if T else 2),
                 'resume': 'all bodies <= %d x buffer {8192, 3} x every k: the consumer leaves its loop after k segments and iterates the same reader again' % nR,
                 'source kinds': 'StringIO, open text file, path string, and StringIO / open file positioned behind a header line or an earlier interchange, on all CR-free bodies <= %d' % (4 if T else 3)}
-    R.assumptions = ['pieces whose leading blanks are followed by CR/LF, and blank-only pieces, are left open by the statement and are skipped (counted)',
+    R.assumptions = ['blanks and line breaks in front of a segment are dropped in whatever order they come (the two documented normalisations compose); pieces whose leading blanks are followed by TAB / VT / FF, and blank-only pieces, are left open by the statement and are skipped (counted)',
                      'path/file source kinds are compared on CR-free texts only (text mode translates CR)',
                      'short-read menu for reads that could return more than 9 characters is {1,2,half,full-2,full-1}']
     return R.finish(LEVEL, 'bodies x buffer sizes x read schedules; an outcome is (number of reference segments, deviations used)', exhaustive=True,
